@@ -639,13 +639,11 @@ func (f *fn) call(x *ast.CallExpr) ex {
 	case "append":
 		if len(x.Args) == 2 {
 			a, b := f.expr(x.Args[0]), f.expr(x.Args[1])
-			if !a.pure || !b.pure {
-				fail(x.Pos(), "append with impure operands")
-			}
+			// operands are evaluated left to right, which is the order in which Lean lifts nested actions
 			if x.Ellipsis.IsValid() {
-				return ex{"(" + a.code + " ++ " + b.code + ")", true, a.t}
+				return ex{"(" + a.code + " ++ " + b.code + ")", a.pure && b.pure, a.t}
 			}
-			return ex{"(" + a.code + " ++ [" + b.code + "])", true, a.t}
+			return ex{"(" + a.code + " ++ [" + b.code + "])", a.pure && b.pure, a.t}
 		}
 		fail(x.Pos(), "append with %d arguments", len(x.Args))
 	case "make":
@@ -693,6 +691,16 @@ func (f *fn) call(x *ast.CallExpr) ex {
 		g := r.t.gon
 		if i := strings.IndexByte(g, '.'); i > 0 {
 			tname := g[i+1:]
+			// a shell target takes every method it calls as a parameter, translated or not
+			if f.tg.Shell {
+				if ec, ok := shellMethods[g+"."+sel.Sel.Name]; ok {
+					codes, _, _ := f.args(x.Args)
+					for _, u := range ec.uses {
+						f.uses[u] = true
+					}
+					return impure(subst(ec.tmpl, r.code, codes), ec.t)
+				}
+			}
 			// a translated method
 			if tg := findTargetByType(g, sel.Sel.Name); tg != nil {
 				return f.callTarget(tg, &r, x.Args, x.Pos())
